@@ -372,6 +372,73 @@ def adts_table_rule(prog, run, R="R8"):
     run.floor(R, n, 500, "ADTS header evaluations")
 
 
+def finish_refusals_rule(prog, run, cx, R="R10"):
+    """finish has one documented precondition (not finished yet); besides it the finalisation code may fail only because the sink
+    failed or because a size does not fit its 32-bit field (C16).  Every explicit error exit of the functions between the writer's
+    finalize entry and the sink helper must be guarded by the finished flag or by a comparison with u32::MAX, and every `?` must
+    propagate the sink helper, a checked addition or another function of that tree."""
+    u, g, an = cx.u, cx.g, cx.an
+    if an.G is None or an.F is None:
+        run.bad(R, "anchor finalize", "finalize entry / sink helper not identified")
+        return
+    tree = sorted(p for p in g.reach([an.G]) if an.F in g.reach([p]) and p != an.F and u.bodies[p].get("kind") != "Closure")
+    n = 0
+    for p in tree:
+        b = u.bodies[p]
+        ROLE_NAMES.clear()
+        for i in range(1, b["argc"] + 1):
+            ROLE_NAMES[i] = mir.debug_name(b, i)
+        CUR_BODY[:] = [b]
+        for ex in flow.exits(b):
+            if ex["kind"] != "err":
+                continue
+            n += 1
+            gs = guards.guards_of(b, ex["bb"])
+            sigs = [signature(d, t) for (s_, d, t) in gs]
+            last = sigs[-1] if sigs else "unconditional"
+            ok = last in ("state:%s" % an.flag_field,) or last.endswith("> const:4294967295") or last.endswith(">= const:4294967296")
+            run.check(ok, R, "%s refusal <= %s" % (mir.norm(p).split("::")[-1], last), "already finished / a size exceeds its 32-bit field",
+                      "%s returns an error under `%s` (guard chain %s): finish has no such precondition - a muxer that is not finished and whose sizes fit must finish successfully" % (mir.norm(p), last, sigs[-3:]), mir.loc_of(ex["node"]))
+        for t in flow.try_sites(b):
+            n += 1
+            src = t["src"]
+            nm = src[1] if isinstance(src, tuple) and src and src[0] == "call" else "?"
+            raw = src[3] if isinstance(src, tuple) and len(src) > 3 else None
+            ok = raw == an.F or raw in tree or nm.split("::")[-1] in ("checked_add", "checked_mul", "checked_sub", "ok_or_else", "ok_or", "try_from", "try_into") or \
+                (raw in u.bodies and _size_helper(u, raw))
+            run.check(ok, R, "%s ? %s" % (mir.norm(p).split("::")[-1], nm.split("::")[-1]), "propagates a sink error or a size overflow",
+                      "%s propagates a failure of `%s`: not a sink error and not a size check" % (mir.norm(p), nm), t["loc"])
+    CUR_BODY[:] = []
+    run.floor(R, n, 20, "error exits and `?` sites in the finalisation tree")
+
+
+def _size_helper(u, p, depth=0):
+    """a local helper whose every failure is a size check: explicit error exits under `> u32::MAX`-style guards, `?` only on checked
+    arithmetic / checked conversions / other such helpers"""
+    if depth > 4:
+        return False
+    b = u.bodies[p]
+    for ex in flow.exits(b):
+        if ex["kind"] != "err":
+            continue
+        gs = guards.guards_of(b, ex["bb"])
+        if not gs:
+            return False
+        s_, d, tk = gs[-1]
+        if not (d[0] == "bin" and d[1] in ("Gt", "Ge", "Lt", "Le") and any(isinstance(y, tuple) and y[:1] == ("const",) and isinstance(y[1], int) and y[1] >= 0xFFFF for y in sym.walk(d))):
+            return False
+    for t in flow.try_sites(b):
+        src = t["src"]
+        nm = src[1] if isinstance(src, tuple) and src and src[0] == "call" else "?"
+        raw = src[3] if isinstance(src, tuple) and len(src) > 3 else None
+        if nm.split("::")[-1] in ("checked_add", "checked_mul", "checked_sub", "ok_or_else", "ok_or", "try_from", "try_into"):
+            continue
+        if raw in u.bodies and _size_helper(u, raw, depth + 1):
+            continue
+        return False
+    return True
+
+
 def vp9_sibling_rule(prog, run, R="R9"):
     """VP9: the first video frame must be a keyframe that carries its configuration.  The crate has two readers of the VP9
     frame-header byte: the keyframe classifier and the configuration extractor.  They must accept the same header bytes: for all
@@ -608,6 +675,11 @@ def check(prog, run):
                               "%s rejects against `%s`, but its sibling %s (same queue) never updates it: mixing the two entry points mis-judges or mis-names the violation" % (mir.norm(a), f, mir.norm(o)),
                               mir.loc_of(u.bodies[o]))
     r5(cx, run)
+    run.rule("R11", "a first keyframe carrying its parameter sets is accepted wherever they stand in the frame: the extractors find them for every header byte of any other unit before or after them (C07.R13 instances)")
+    from . import c07
+    c07.parameter_set_table_rule(prog, run, "R11")
+    run.rule("R10", "finish refuses only when already finished, when the sink fails or when a size does not fit 32 bits: every error exit / `?` of the finalisation tree is of one of these kinds")
+    finish_refusals_rule(prog, run, cx)
 
 
 def _match(row, sigs):
